@@ -519,6 +519,9 @@ func runSaveIO(c Case, emit Emitter) {
 	x := &sioCtx{c: c, doc: document.New(), work: work, rnd: rand.New(rand.NewSource(seed*7919 + 17))}
 	emit(Ev{"ev": "reset", "case": c.ID})
 	for i, op := range c.Steps {
+		if op.Name() == "Group" {
+			continue // names the scenario group the behaviour was generated from
+		}
 		if op.Name() != "Save" {
 			ret, pmsg := guard(func() string { return x.edit(i, op) })
 			emit(Ev{"ev": "edit", "case": c.ID, "op": op.Name(), "ret": ret, "pmsg": pmsg})
